@@ -42,6 +42,20 @@ theorem c05_no_preempt (s : State) (c : Nat) (cs : List Nat) (rev : Bool) (hc : 
     ∧ (∀ i, (step s (Act.wake cs Mode.discard rev)).st i = St.running ↔ s.st i = St.running) := by
   simpa [step, hc, coStep, enqueue] using collect_running s.st cs
 
+/-- **Queued in the order they were made ready** (decision logic, any state): the coroutines a running coroutine makes ready
+one after the other (targets `cs`, processed in this order) and whose suspend point it drops are appended to the ready queue in
+exactly the order in which they were made ready (`made` and `enq` grow by the same list, a sublist of `cs`) — whether the
+suspend point was built directly or collected by `coro_queue::create_suspend_point` (`rev = true`; the pinned code reversed the
+order there, `c05_asis_create_reversed`, `/repo` commit 34c6158).  With `c05_fifo` / `c05_fifo_progress` they are resumed in
+that order. -/
+theorem c05_ready_order_is_made_order (s : State) (c : Nat) (cs : List Nat) (rev : Bool) (hc : s.cur = some c) :
+    (step s (Act.wake cs Mode.discard rev)).ready = s.ready ++ handles s.st cs rev
+    ∧ (step s (Act.wake cs Mode.discard rev)).enq = s.enq ++ handles s.st cs rev
+    ∧ (step s (Act.wake cs Mode.discard rev)).made = s.made ++ handles s.st cs rev
+    ∧ handles s.st cs rev = handles s.st cs false
+    ∧ List.Sublist (handles s.st cs rev) cs := by
+  refine ⟨?_, ?_, ?_, rfl, collect_sublist cs s.st⟩ <;> simp [step, hc, coStep, enqueue]
+
 /-- **Run to suspension**: control passes from the executing coroutine `c` to anybody else only in a step in
 which `c` itself stops running (it suspended, finished, or called `start()` itself and is blocked in it), and
 that step is never the dropping of a suspend point. -/
@@ -525,7 +539,7 @@ theorem c05_blocking_wait (s : State) : step s Act.fwait = s := by
 /-- The pinned (unrepaired) `parallel`: the awaiting coroutine 0 was resumed in its new thread by a bare
 `h.resume()`, i.e. outside coroutine mode; when it then detaches coroutine 1 and drops the suspend point, 1 runs
 at once while 0 has neither suspended nor finished (replayed on the headers in corpus/c05_sched.txt; repaired by
-the `fix:` commit, after which 0 keeps running and 1 waits in the ready queue). -/
+`/repo` commit b372584, after which 0 keeps running and 1 waits in the ready queue). -/
 theorem c05_asis_violation :
     (runAsIs init [Act.start 0 true, Act.parkPar, Act.wakePar 0, Act.job]).cur = some 0
     ∧ (runAsIs init [Act.start 0 true, Act.parkPar, Act.wakePar 0, Act.job]).active = false
@@ -538,6 +552,25 @@ theorem c05_asis_violation :
                  Act.wake [1] Mode.discard false]).cur = some 0
     ∧ (run init [Act.start 0 true, Act.parkPar, Act.wakePar 0, Act.job,
                  Act.wake [1] Mode.discard false]).ready = [1] := by decide
+
+/-- The pinned (unrepaired) `coro_queue::create_suspend_point` (before `/repo` commit 34c6158 "fix: create_suspend_point
+returned the readied coroutines in reverse order"; replayed on the headers in corpus/c05_gather_order.txt): coroutine 0 makes
+1, 2, 3 ready in this order under `create_suspend_point` (`made`), drops the returned suspend point and finishes — the ready
+queue holds 3, 2, 1 and they are resumed 3, 2, 1, not in the order they were queued; the same calls without the wrapper, and
+the repaired code with it, resume 1, 2, 3. -/
+theorem c05_asis_create_reversed :
+    (runGatherAsIs init [Act.start 0 true, Act.wake [1, 2, 3] Mode.discard true]).cur = some 0
+    ∧ (runGatherAsIs init [Act.start 0 true, Act.wake [1, 2, 3] Mode.discard true]).made = [0, 1, 2, 3]
+    ∧ (runGatherAsIs init [Act.start 0 true, Act.wake [1, 2, 3] Mode.discard true]).ready = [3, 2, 1]
+    ∧ (runGatherAsIs init [Act.start 0 true, Act.wake [1, 2, 3] Mode.discard true, Act.fin, Act.fin, Act.fin, Act.fin]).runs
+        = [0, 3, 2, 1]
+    ∧ (runGatherAsIs init [Act.start 0 true, Act.wake [1, 2, 3] Mode.discard false, Act.fin, Act.fin, Act.fin, Act.fin]).runs
+        = [0, 1, 2, 3]
+    ∧ (run init [Act.start 0 true, Act.wake [1, 2, 3] Mode.discard true]).ready = [1, 2, 3]
+    ∧ (run init [Act.start 0 true, Act.wake [1, 2, 3] Mode.discard true, Act.fin, Act.fin, Act.fin, Act.fin]).runs
+        = [0, 1, 2, 3]
+    ∧ (run init [Act.start 0 true, Act.wake [1, 2, 3] Mode.discard true, Act.fin, Act.fin, Act.fin, Act.fin]).made
+        = [0, 1, 2, 3] := by decide
 
 /-! ## Non-vacuity: the hypotheses are met by real runs
 
